@@ -71,6 +71,12 @@ class RoundTrip(Harness):
         pr.append(("string with a character beyond the BMP", z3.Or([z3.And(z3.UGE(c.n, 1), z3.UGT(c.ch[0], 0xFFFF)) for c in S])))
         pr.append(("long string (50+ characters)", z3.Or([c.tail for c in S])))
         pr.append(("first string missing", S[0].is_empty()))
+        if len(S) > 1:
+            # strings spelled like the markers CSV readers take for a missing value, in a column that is plainly text
+            def spelled(c, text): return z3.And(c.n == len(text), z3.Not(c.tail), z3.Not(c.cut), *[c.ch[j] == ord(x) for j, x in enumerate(text)])
+            for word in ("NA", "na", "-", "?"):
+                pr.append((f"the string {word!r} beside an ordinary word", z3.And(spelled(S[0], word), spelled(S[1], "x"))))
+                pr.append((f"an ordinary word, then the string {word!r}", z3.And(spelled(S[0], "x"), spelled(S[1], word))))
         if len(S) > 1: pr.append(("first string missing, second present", z3.And(S[0].is_empty(), z3.Not(S[1].is_empty()))))
         pr.append(("all strings missing", z3.And([c.is_empty() for c in S])))
         pr.append(("NaN", z3.Or([z3.fpIsNaN(c) for c in F])))
@@ -115,6 +121,6 @@ class RoundTrip(Harness):
 
 def harnesses(tier):
     n = 1 if tier == "quick" else 2
-    hs = [RoundTrip("DataFrame", f, 2 if f in ("pickle", "npz", "parquet") else n) for f in ("pickle", "npz", "parquet", "csv", "json")]
+    hs = [RoundTrip("DataFrame", f, 2 if f in ("pickle", "npz", "parquet", "csv") else n) for f in ("pickle", "npz", "parquet", "csv", "json")]
     hs += [RoundTrip("ListOfDicts", f, n) for f in ("pickle", "json", "csv")]
     return hs
